@@ -2722,7 +2722,25 @@ def _c19_floor(d):
     """Float noise floor of a relative deviation: a few ulps of the largest coordinate, relative to the larger radius."""
     el = _arc_ellipse(d)
     big = abs(el[0]) + abs(el[1]) + 2 * max(el[2], el[3])
-    return 1e-12 + 16 * 2.3e-16 * big / max(el[2], el[3])
+    # the start parameter goes through atan2(a * tan(angle), b): rounding of the coordinates is amplified by the axis
+    # ratio before it reaches the curve points
+    ratio = max(el[2], el[3]) / min(el[2], el[3]) if min(el[2], el[3]) > 0 else 1.0
+    floor = 1e-12 + 16 * 2.3e-16 * big / max(el[2], el[3]) * max(1.0, ratio)
+    if d.get("t") == "E":
+        # endpoint form whose radii just span the chord (given so, or scaled up by F.6.6): the centre is the square
+        # root of a difference that vanishes - sqrt(rounding) = 1e-8 relative is the best any double computation can do,
+        # in the library and in the reference ellipse alike
+        try:
+            phi = math.radians(d["rot"])
+            dx, dy = (d["s"][0] - d["e"][0]) / 2.0, (d["s"][1] - d["e"][1]) / 2.0
+            x1 = math.cos(phi) * dx + math.sin(phi) * dy
+            y1 = -math.sin(phi) * dx + math.cos(phi) * dy
+            lam = (x1 / d["rx"]) ** 2 + (y1 / d["ry"]) ** 2
+            if lam > 1.0 - 1e-9:
+                floor = max(floor, 1e-7)
+        except (ZeroDivisionError, OverflowError, KeyError):
+            pass
+    return floor
 
 
 def _c19_arc(mod, case):
